@@ -267,7 +267,18 @@ class ConWorld:
 # ----------------------------------------------------------------------------- running one obligation
 def run_obligation(fn, params, name, timeout=20.0, fork=False, max_paths=64, vacuity=True, replay=True, only=None):
     """execute fn symbolically (all paths when fork=True), discharge every goal, replay sat models.
-    returns a plain dict (picklable)."""
+    returns a plain dict (picklable).  An obligation written for data-independent control flow (fork=False) whose code turns out to
+    branch on the data is re-run path by path (fork mode) instead of being given up."""
+    out = _run_obligation(fn, params, name, timeout, fork, max_paths, vacuity, replay, only)
+    if not fork and out["status"] == "unsupported" and any(n.startswith("SymbolicBranch") for n in out["notes"]):
+        out2 = _run_obligation(fn, params, name, timeout, True, max(max_paths, 64), vacuity, replay, only)
+        out2["notes"].insert(0, "control flow depends on symbolic data: re-run path by path (fork mode, %d paths)" % out2["paths"])
+        out2["exec_s"] += out["exec_s"]
+        return out2
+    return out
+
+
+def _run_obligation(fn, params, name, timeout=20.0, fork=False, max_paths=64, vacuity=True, replay=True, only=None):
     t0 = time.time()
     out = {"name": name, "params": _jsonable(params), "goals": [], "paths": 0, "status": "ok", "notes": [], "exec_s": 0.0}
     pending = [[]] if fork else [None]
@@ -399,6 +410,15 @@ def _discharge(fn, params, W, g, base, timeout, replay, pathno):
                     any(_try(c) for c in cands)
                 if rec["verdict"] == "unconfirmed" and not _small(raw) and not W.nice:
                     _try(raw)
+                if rec["verdict"] == "unconfirmed":
+                    # a model in generic position (all real inputs distinct and non-zero): the solver's first model often sits on a
+                    # degenerate point (zeros, equal channels) where a wrong code path still returns the right numbers
+                    reals = [v for v in W.inputs.values() if z3.is_real(v)]
+                    if 2 <= len(reals) <= 64:
+                        gp = [z3.Distinct(*reals)] + [v != 0 for v in reals]
+                        r3 = solve.check(q + [z3.Not(g.t)] + gp + list(W.bounds), timeout=min(timeout, 10.0), inputs=W.inputs, portfolio=False)
+                        if r3["verdict"] == "sat" and r3["model"]:
+                            _try(r3["model"])
             if is_lemma and rec["verdict"] == "unconfirmed" and ((rec.get("replay") or {}).get("note") == "goal not reached concretely" or getattr(g, "aux", False)):
                 rec["verdict"] = "unknown"
                 rec["reason"] = "lemma not provable (sat), dropped"
